@@ -64,44 +64,56 @@ def L(d, k):
     return (d.get(k) if isinstance(d, dict) else None) or []
 
 
-class Published:
-    def __init__(self, repo):
+class Tables:
+    """definition tables read from JSON: the published files (the oracle's tables) or the in-code dump (pools only)"""
+
+    def __init__(self, regime_list, addon_list, catalogue_list, currencies, iso, tax):
         self.regimes, self.addons, self.ext = {}, {}, {}
-        self.regime_list = []
-        for f in sorted(glob.glob(os.path.join(repo, "data", "regimes", "*.json"))):
-            d = json.load(open(f))
-            self.regime_list.append(d)
+        self.regime_list = regime_list
+        for d in regime_list:
             for code in [d.get("country")] + L(d, "alt_country_codes"):
                 self.regimes.setdefault(code, d)
-        for f in sorted(glob.glob(os.path.join(repo, "data", "addons", "*.json"))):
-            d = json.load(open(f))
+        for d in addon_list:
             self.addons.setdefault(d.get("key"), d)
-        cats = [json.load(open(f)) for f in sorted(glob.glob(os.path.join(repo, "data", "catalogues", "*.json")))]
         self.ext_owner = {}
-        for kind, ds in (("regime", self.regime_list), ("addon", list(self.addons.values())), ("catalogue", cats)):
+        for kind, ds in (("regime", regime_list), ("addon", addon_list), ("catalogue", catalogue_list)):
             for d in ds:
                 for e in L(d, "extensions"):
                     self.ext.setdefault(e.get("key"), e)
                     self.ext_owner.setdefault(e.get("key"), (kind, d.get("country") or d.get("key")))
-        self.currencies = set()
-        for f in glob.glob(os.path.join(repo, "data", "currency", "*.json")):
-            for d in json.load(open(f)):
-                self.currencies.add(d.get("iso_code"))
-        self.schema_currencies = set(self.consts(repo, "currency/code.json", "Code"))
-        self.iso = set(self.consts(repo, "l10n/iso-country-code.json", "ISOCountryCode"))
-        self.tax = set(self.consts(repo, "l10n/tax-country-code.json", "TaxCountryCode"))
+        self.currencies, self.iso, self.tax = set(currencies), set(iso), set(tax)
         # pools of defined values per kind
         self.pool = {
             "regime": sorted(self.regimes),
             "addon": sorted(self.addons),
-            "tag": sorted({t.get("key") for d in self.regime_list + list(self.addons.values()) for ts in L(d, "tags") for t in L(ts, "list")}),
-            "category": sorted({c.get("code") for d in self.regime_list for c in L(d, "categories")}),
-            "rate": sorted({r.get("key") for d in self.regime_list for c in L(d, "categories") for r in L(c, "rates")}),
+            "tag": sorted({t.get("key") for d in regime_list + addon_list for ts in L(d, "tags") for t in L(ts, "list")}),
+            "category": sorted({c.get("code") for d in regime_list for c in L(d, "categories")}),
+            "rate": sorted({r.get("key") for d in regime_list for c in L(d, "categories") for r in L(c, "rates")}),
             "combo-country": sorted(self.tax),
             "ext-key": sorted(self.ext),
             "currency": sorted(self.currencies),
             "country": sorted(self.iso | self.tax),
         }
+
+    @classmethod
+    def published(cls, repo):
+        rd = lambda sub: [json.load(open(f)) for f in sorted(glob.glob(os.path.join(repo, "data", sub, "*.json")))]
+        cur = {d.get("iso_code") for f in glob.glob(os.path.join(repo, "data", "currency", "*.json")) for d in json.load(open(f))}
+        t = cls(rd("regimes"), rd("addons"), rd("catalogues"), cur,
+                cls.consts(repo, "l10n/iso-country-code.json", "ISOCountryCode"), cls.consts(repo, "l10n/tax-country-code.json", "TaxCountryCode"))
+        t.schema_currencies = set(cls.consts(repo, "currency/code.json", "Code"))
+        return t
+
+    @classmethod
+    def in_code(cls):
+        """what the linked library registers: `vharness c19dump` (the JSON its generators would write) + `c18 tables`"""
+        p = subprocess.run([os.path.join(BIN, "vharness"), "c19dump"], stdout=subprocess.PIPE, env=GOENV, timeout=120)
+        if p.returncode != 0:
+            raise RuntimeError("vharness c19dump failed")
+        d = json.loads(p.stdout)
+        cs, cur = parse_wire(run_go(["c18 tables"], shards=1)[0])
+        return cls(list(d["regimes"].values()), list(d["addons"].values()), list(d["catalogues"].values()),
+                   [x.decode() for x in cur], [x[0].decode() for x in cs if x[1]], [x[0].decode() for x in cs if x[2]])
 
     @staticmethod
     def consts(repo, rel, name):
@@ -277,25 +289,44 @@ def apply_mutation(j, kind, path, old, new, detail):
     return j
 
 
-def candidates(c, pub, kind, old, detail, quick):
+class Pools:
+    """the defined values of each kind: published or registered in the code; a value defined on ONE side only is
+    tried at every position of its kind (it is where code and published files could disagree)"""
+
+    def __init__(self, pub, code):
+        self.pub, self.code = pub, code
+
+    def values(self, kind, detail):
+        def both(f):
+            a, b = set(f(self.pub)), set(f(self.code))
+            return sorted(a | b), sorted(a ^ b)
+        if kind == "ext-value":
+            return both(lambda t: t.ext_values(detail))
+        if kind == "country":
+            return both(lambda t: t.iso if detail == "iso" else t.regimes if detail == "regime" else t.tax)
+        return both(lambda t: t.pool[kind])
+
+    def all_ext_codes(self):
+        return sorted({v for t in (self.pub, self.code) for k in t.ext for v in t.ext_values(k)})
+
+
+def candidates(c, pools, kind, old, detail, quick):
     """-> [(new value, class)] : the OTHER defined values of the kind (all of them, or a bounded sample) + undefined ones"""
     out = []
+    pool, one_sided = pools.values(kind, detail)
+    pool = [x for x in pool if x != old]
+    extra = []
     if kind == "ext-value":
-        own = [v for v in pub.ext_values(detail) if v != old]
-        other = sorted({v for k in pub.ext for v in pub.ext_values(k)} - set(own) - {old})
-        pool = own + (c.rng.sample(other, min(len(other), 3)) if other else [])
-        bound = 3
-    elif kind == "country":
-        pool = [x for x in (sorted(pub.iso) if detail == "iso" else sorted(pub.regimes) if detail == "regime" else sorted(pub.tax)) if x != old]
-        bound = 2
-    else:
-        pool = [x for x in pub.pool[kind] if x != old]
-        bound = {"regime": None, "addon": None, "tag": 4, "category": 4, "rate": 4, "combo-country": 3, "ext-key": 3, "currency": 2}[kind]
+        other = [v for v in pools.all_ext_codes() if v not in pool and v != old]
+        extra = c.rng.sample(other, min(len(other), 3 if quick else 25))
+    bound = {"regime": None, "addon": None, "tag": 5, "category": 5, "rate": 5, "combo-country": 3, "ext-key": 4,
+             "ext-value": 3, "currency": 3, "country": 3}[kind]
     if not quick:
         bound = None if bound is None else bound * 25
     if bound is not None and len(pool) > bound:
-        pool = c.rng.sample(pool, bound)
-    out += [(x, "defined-other") for x in pool]
+        keep = [x for x in one_sided if x != old]
+        pool = keep + c.rng.sample([x for x in pool if x not in keep], max(0, bound - len(keep)))
+    out += [(x, "defined-other") for x in pool + extra]
     und = UNDEFINED[kind]
     out += [(x, "undefined") for x in (und[:1] if quick and kind not in ("regime", "category", "ext-key") else und)]
     if kind == "rate" and old:
@@ -435,7 +466,8 @@ def judge(c, pub, cases, stats):
                 for ref in sorted(U):
                     by.setdefault(finding_for(view[2], ref), []).append(ref)
                 for fid, refs_ in by.items():
-                    k = ("P", fid, refs_[0][0], re.sub(r"\d+", "*", refs_[0][1]))
+                    refs_.sort(key=lambda r: r[2] != mut["new"])      # the replaced value itself first
+                    k = ("P", fid, refs_[0][0], re.sub(r"\d+", "*", refs_[0][1]), kind, cls, refs_[0][2] == mut["new"])
                     if fid or reported.get(k, 0) < 2:
                         reported[k] = reported.get(k, 0) + 1
                         in_code_only = [r for r in refs_ if r not in fr]
@@ -443,7 +475,7 @@ def judge(c, pub, cases, stats):
                                  x["example"], refs_[0][0], refs_[0][2], refs_[0][1],
                                  " (it resolves in the in-code tables: code and published files differ, see C19)" if in_code_only else "",
                                  mut["old"], mut["new"], mut["path"]),
-                                 dict(x, unresolved=[list(r) for r in refs_], implementation="accepted",
+                                 dict(x, unresolved=[list(r) for r in refs_], implementation="accepted", direct=(refs_[0][2] == mut["new"]),
                                       model_repaired_rules=bool(rep), model_shipped_rules=bool(shp),
                                       clause="a document that passes validation only references defined codes, keys and rates"),
                                  finding_id=fid)
@@ -481,7 +513,8 @@ def run(c):
     if not ok:
         c.report("extraction/oracle build failed: " + out[-800:], {"machinery": "oracle"}, no_input=True)
         return
-    pub = Published(REPO)
+    pub = Tables.published(REPO)
+    pools = Pools(pub, Tables.in_code())
     if pub.currencies != pub.schema_currencies:
         c.report("data/currency/*.json and data/schemas/currency/code.json list different currencies: %s" % sorted(pub.currencies ^ pub.schema_currencies)[:10],
                  {"correspondence": "published currency lists"}, no_input=True)
@@ -521,12 +554,12 @@ def run(c):
             continue
         for kind, path, old, detail in positions(doc, view):
             npos[kind] = npos.get(kind, 0) + 1
-            for new, cls in candidates(c, pub, kind, old, detail, quick):
+            for new, cls in candidates(c, pools, kind, old, detail, quick):
                 specs.append((ei, {"kind": kind, "class": cls, "path": path, "old": old, "new": new, "detail": detail}))
         # documents that can carry tags but have none: one tag put in (a position the examples leave empty)
         if view[2] in ("bill/invoice", "bill/order", "bill/delivery", "bill/payment") and not doc.get("$tags"):
             npos["tag(inserted)"] = npos.get("tag(inserted)", 0) + 1
-            for new, cls in [("zz-unknown", "undefined"), (c.rng.choice(pub.pool["tag"]), "defined-other")]:
+            for new, cls in [("zz-unknown", "undefined"), (c.rng.choice(pools.values("tag", None)[0]), "defined-other")]:
                 specs.append((ei, {"kind": "tag", "class": cls, "path": "$tags/0", "old": "", "new": new, "detail": "inserted"}))
     c.cov["positions"] = npos
     c.cov["mutated_documents"] = len(specs)
@@ -544,6 +577,8 @@ def run(c):
         for x, g in list(zip(chunk, res))[:3]:
             c.sample({"example": x["example"], "mutation": x["mutation"], "implementation": [b.decode("utf-8", "replace") for b in g[0][:2]]}, limit=5)
     c.cov["verdicts"] = stats
+    # failing inputs whose unresolved reference IS the replaced value are listed first
+    c.violations.sort(key=lambda v: (v[2], not (isinstance(v[1], dict) and v[1].get("direct"))))
     c.cov["rule"] = ("every example file of the repository that parses, calculates and validates (inputs and outputs; "
                      "examples/**, regimes/*/examples, addons/*/*/examples) x every reference position of its typed document "
                      "($regime, each $addons and $tags member, each combo's category, rate key and country override, each extension "
@@ -567,7 +602,7 @@ def replay(path):
         print(json.dumps(r, indent=1, ensure_ascii=False))
         return 0
     build_harness()
-    pub = Published(REPO)
+    pub = Tables.published(REPO)
     g = go_run([x["document"]])[0]
     print("mutation:       ", json.dumps(x.get("mutation")))
     print("implementation: ", [b.decode("utf-8", "replace") if isinstance(b, bytes) else b for b in g[0]])
